@@ -257,6 +257,8 @@ def check_merge(rec: core.Recorder, *, op: str, pre: dict, res: dict, amount, ax
                 # the sums of a run may not fit a compact content type: then (and only then) the type is widened losslessly
                 if merge_widening_justified(pre["dtype"], res.get("dtype"), rf, re_):
                     continue
+                if axis is None and nd > 1 and amount is not None and min_frequency is None and merge_all_axes_widening_justified(pre["dtype"], res.get("dtype"), f, e, int(amount)):
+                    continue  # an intermediate stage (axis by axis) did not fit
             if k in ("underflow", "overflow", "inner_missed", "missed") and pre[k] != "nan" and res.get(k) != "nan" and float(pre[k]) == float(res.get(k)):
                 continue
             fail(f"merge_bins changed {k}", [k], before=pre[k], after=res.get(k))
@@ -272,6 +274,27 @@ def merge_widening_justified(before, after, freq, err2) -> bool:
         with np.errstate(all="ignore"):
             if not np.array_equal(a.astype(d0).astype(np.float64), a, equal_nan=True):
                 return True
+    return False
+
+
+def merge_all_axes_widening_justified(before, after, pre_freq, pre_err2, amount: int) -> bool:
+    """merge_bins over all axes works axis by axis: the sums of an intermediate stage may be what the compact content type cannot
+    hold, even if the final sums are numbers of it again."""
+    d0 = np.dtype(before)
+    if not np.can_cast(d0, np.dtype(after)):
+        return False
+    stages = [np.asarray(pre_freq, dtype=np.float64), np.asarray(pre_err2, dtype=np.float64)]
+    for ax in range(stages[0].ndim):
+        nxt = []
+        for a in stages:
+            n = a.shape[ax]
+            groups = [np.take(a, range(k, min(k + amount, n)), axis=ax).sum(axis=ax) for k in range(0, n, amount)]
+            nxt.append(np.stack(groups, axis=ax) if groups else a)
+        stages = nxt
+        for a in stages:
+            with np.errstate(all="ignore"):
+                if not np.array_equal(a.astype(d0).astype(np.float64), a, equal_nan=True):
+                    return True
     return False
 
 
@@ -457,6 +480,11 @@ def check_1d_index(rec: core.Recorder, *, op: str, pre: dict, index, result, exc
                     else:
                         eu = pre["underflow"] + float(f[:start].astype(float).sum())
                         eo = pre["overflow"] + float(f[stop:].astype(float).sum())
+                        rdt_ = np.dtype(r["dtype"])
+                        if rdt_.kind == "f" and rdt_.itemsize < 8:
+                            # the exact sum, rounded once into the (compact) content type that also holds the missed values
+                            with np.errstate(all="ignore"):
+                                eu, eo = float(np.asarray(eu).astype(rdt_)), float(np.asarray(eo).astype(rdt_))
                     if r["underflow"] != eu or r["overflow"] != eo:
                         fail("contents cut off by a contiguous slice were not added to underflow / overflow", ["underflow", "overflow"],
                              got=[r["underflow"], r["overflow"]], expected=[eu, eo])
@@ -472,7 +500,9 @@ def check_1d_index(rec: core.Recorder, *, op: str, pre: dict, index, result, exc
                         except (TypeError, ValueError, OverflowError):
                             pass
                     tot1 = float(_arr(r, "frequencies").astype(float).sum()) + r["underflow"] + r["overflow"]
-                    if abs(tot1 - tot0) > 1e-9 * (abs(tot0) + 1):
+                    rdt_ = np.dtype(r["dtype"])
+                    rel_ = 1e-9 if not (rdt_.kind == "f" and rdt_.itemsize < 8) else 2 * float(np.finfo(rdt_).eps)  # (two roundings into a compact float type)
+                    if abs(tot1 - tot0) > rel_ * (abs(tot0) + 1):
                         fail("total + underflow + overflow not conserved by a contiguous slice", ["total"], before=tot0, after=tot1)
     else:
         contiguous = False
